@@ -58,8 +58,10 @@ Fixpoint rand_pick (ws : list Q) (sumW draw : Q) (k : Z) : Z :=
 Definition rand_sumW (nb : list (Z * Q)) : Q := qsum (map (fun p => gen_rand_dsum1 (snd p)) nb).
 
 (* buf = contents of the 8-slot buffer Jnn when _rand_interpolation runs: its
-   first nn slots hold the neighbours, the others whatever they held before *)
+   first nn slots hold the neighbours, the others whatever they held before.
+   Early return when no buffered weight is positive (no draw is consumed). *)
 Definition rand_updates (i clampJ : Z) (nb : list (Z * Q)) (u : Q) (buf : list Z) : list (Z * Q) :=
+  if gen_rand_skip (rand_sumW nb) then [] else
   let draw := gen_rand_draw (rand_sumW nb) u in
   let k := rand_pick (map snd nb) 0%Q draw 0 in
   [(gen_rand_index (fun q => nth (Z.to_nat q) buf (-1)) k clampJ i, gen_rand_incr)].
@@ -98,10 +100,11 @@ Definition rand_step (J : list Z) (d0 d1 d2 clampJ : Z) (st : list Q * list Z * 
   if vox_inside d0 d1 d2 v then
     let nb := neigh J d0 d1 d2 v in
     let buf' := new_buf nb buf in
-    match us with
-    | u :: us' => (apply_updates (rand_updates (vi v) clampJ nb u buf') H, buf', us')
-    | [] => (H, buf', [])
-    end
+    if gen_rand_skip (rand_sumW nb) then (H, buf', us)     (* prng_double is not called *)
+    else match us with
+         | u :: us' => (apply_updates (rand_updates (vi v) clampJ nb u buf') H, buf', us')
+         | [] => (H, buf', [])
+         end
   else st.
 
 (* buf0: the (uninitialised) stack contents of Jnn at function entry *)
